@@ -24,15 +24,26 @@ def one(spec, R, batch, stats, considered_mode):
     b = GR.build(spec)
     try:
         decl = b.oracle()     # declared weights, before any extraction
-        considered = b.considered if considered_mode == "all-classes" else \
-            [c for c in b.considered if not any(x["name"] == c.__name__ and x["abstract"] for x in spec["classes"])]
+        start = b.start
+        if considered_mode == "nested-start":
+            # the grammar is extracted FROM a nested abstract type: its parent (and so the rule that lists it next to its
+            # siblings) is registered as well, and that rule is subject to the same clauses
+            nested = [c["name"] for c in spec["classes"] if c["abstract"] and c["parent"]]
+            if not nested:
+                return
+            start = b.classes[nested[0]]
+            decl["start"] = nested[0]
+            considered = [c for c in b.classes.values() if c is not start]
+        else:
+            considered = b.considered if considered_mode == "all-classes" else \
+                [c for c in b.considered if not any(x["name"] == c.__name__ and x["abstract"] for x in spec["classes"])]
         evs = []
         g = None
         prev_exact = None
         for k in range(1, 4):
             try:
                 with time_limit(10):
-                    g = extract_grammar(considered, b.start)
+                    g = extract_grammar(considered, start)
                 exact = {str(t): repr(float(w)) for t, w in g.get_weights().items()}      # to the last bit
                 evs.append({"e": "weights", "k": k, "exc": "", "impl": impl_grammar(g),
                             "exact_same": prev_exact is None or exact == prev_exact})
@@ -85,7 +96,7 @@ def one(spec, R, batch, stats, considered_mode):
                 return [x for y in f[1] for x in syms(y)]
             return []
         only_abstract = all(sy in abstract_names for c in spec["classes"] for _, f in c["fields"] for sy in syms(f))
-        if g is not None and only_abstract and spec["start"] in abstract_names:
+        if g is not None and only_abstract and spec["start"] in abstract_names and considered_mode != "nested-start":
             from geneticengine.random.sources import NativeRandomSource
             from geneticengine.representations.stackgggp import StackBasedGGGPRepresentation
             from geneticengine.representations.tree.treebased import TreeBasedRepresentation
@@ -182,6 +193,8 @@ def main():
         one(spec, R, batch, stats, "all-classes")
         if i % 3 == 0:
             one(spec, R, batch, stats, "concrete-classes-only")
+        if i % 2 == 0 or i < len(W_FIXED):
+            one(spec, R, batch, stats, "nested-start")
     batch.traces = finalize(batch.traces)
     paths = batch.shards(a.out, a.shards)
     write_summary(a.out, {"batches": paths, "traces": len(batch.traces), "events": stats["events"]})
